@@ -513,8 +513,10 @@ static bool parse_number(struct JsonContext *ctx, const char **src_p, const char
 	tokend = buf;
 	if (type == JSON_FLOAT) {
 		v_float = strtod_dot(buf, &tokend);
-		if (*tokend != 0 || errno || !isfinite(v_float))
+		/* ERANGE with a finite result is underflow (subnormal or zero): valid */
+		if (*tokend != 0 || (errno && errno != ERANGE) || !isfinite(v_float))
 			goto failed;
+		errno = 0;
 	} else if (len < 8) {
 		v_int = strtol(buf, &tokend, 10);
 		if (*tokend != 0 || errno)
